@@ -474,6 +474,36 @@ example : CurveOK (.G .SO3) (affine .SO3 [0.6, 0, 0, 0.8] [0.3, -0.2, 0.5]) [0.3
 /-- the program of the example above is algebraic once `Retr` is replaced by a product -/
 example : (Prog.bin .Act .SE3 (.bin .Mul .SE3 (.un .Inv .SE3 (.leaf 0)) (.leaf 1)) (.leaf 2)).algebraic = true := by decide
 
+/-! ## 3c. Call sequences and aliased arguments (hardening pass: object reuse, views / aliases)
+
+The reverse sweep is a pure function of (program, leaf values, cotangent); nothing is carried from one call to the next,
+and one tensor used in several argument positions receives the sum of the gradients of the positions. -/
+
+/-- two backward passes through one graph (`retain_graph`) accumulate in `.grad` exactly what one backward pass with the
+summed cotangent delivers (in the pairing with any leaf tangents) -/
+theorem backward_calls_accumulate (dJ : DJ ℝ) (hdJ : DJShape dJ) (eps : ℝ) (lt : List Ty) (env tan : List (DVec ℝ))
+    (hE : EnvOK lt env tan) (p : Prog) (ty : Ty) (c1 c2 : DVec ℝ) (hty : tyOf lt p = some ty)
+    (h1 : c1.length = ty.dim) (h2 : c2.length = ty.dim) :
+    pairSum tan (backprop dJ eps env p c1 ++ backprop dJ eps env p c2)
+      = pairSum tan (backprop dJ eps env p (DVec.add c1 c2)) :=
+  backprop_accumulates dJ hdJ eps lt env tan hE p ty c1 c2 hty h1 h2
+
+/-- aliasing = sharing, forward: a program whose argument positions are fed through a renaming `f` of the caller's tensors
+(e.g. `X @ X`: both positions ↦ the same tensor) evaluates like distinct tensors holding the same data -/
+theorem aliased_arguments_eval (eps : ℝ) (n : Nat) (f : Nat → Nat) (env : List (DVec ℝ)) (p : Prog) (h : p.leavesBelow n) :
+    eval eps env (p.mapLeaf f) = eval eps (reindex n f env) p :=
+  eval_mapLeaf eps n f env p h
+
+/-- aliasing = sharing, backward: the contributions are those of the un-aliased program, delivered to the identified
+tensors — `.grad` of a tensor passed in several positions is the sum over the positions -/
+theorem aliased_arguments_backprop (dJ : DJ ℝ) (eps : ℝ) (n : Nat) (f : Nat → Nat) (env : List (DVec ℝ)) (p : Prog)
+    (h : p.leavesBelow n) (go : DVec ℝ) :
+    backprop dJ eps env (p.mapLeaf f) go = (backprop dJ eps (reindex n f env) p go).map (fun c => (f c.1, c.2)) :=
+  backprop_mapLeaf dJ eps n f env p h go
+
+/-- `X @ X` is `X₀ @ X₁` with both leaves renamed to `0` -/
+example : (Prog.bin .Mul .SE3 (.leaf 0) (.leaf 1)).mapLeaf (fun _ => 0) = .bin .Mul .SE3 (.leaf 0) (.leaf 0) := rfl
+
 /-! ## 4. The remaining storage slot of every group gradient is zero -/
 
 /-- every contribution delivered to a leaf of group type `g` by a program that is not that bare leaf has `0` in slot
